@@ -34,7 +34,7 @@ class Ctx:
         self.tier = tier
         self.seed = seed
         self.level = level
-        self.work = WORK / pid
+        self.work = WORK / f"{pid}.{os.getpid()}"      # one scratch directory per run: concurrent runs do not collide
         if self.work.exists():
             shutil.rmtree(self.work)
         self.work.mkdir(parents=True)
